@@ -393,6 +393,8 @@ def fam_c04_ext(step=13):
     add("shadow-param", [FnStmt("f", ["a"], [Ret(Id("a"))]), P(Call("f", I(1))), FnStmt("g", ["x"], [Ret(Id("a"))]), P(Call("g", I(1))), Ret(I(0))])
     add("forin-var", [ForIn("a", L(I(1), I(2)), [rd("a")]), rd("a"), Ret(I(0))])
     add("catch-var", [Try([Throw(S("t"))], "a", [rd("a")]), rd("a"), Ret(I(0))])
+    # the same programs with the lookup on a scope nested in the host's (which binds a and b itself): the lookup is asked before the enclosing scope
+    out += [dict(p, id=p["id"].replace("c04-ext-", "c04-extinner-", 1), extinner=True) for p in out]
     return out
 
 
